@@ -13,6 +13,7 @@ import (
 	"os"
 	"runtime"
 	"sort"
+	"strconv"
 	"sync"
 	"time"
 
@@ -77,6 +78,22 @@ type Found struct {
 	Spec *Spec
 	Hist []Op
 	V    *Violation
+}
+
+// heapOverLimit: the explorer stops expanding (like at the deadline) when the Go heap exceeds VERIF_MEM_GB
+// (default 6 GiB): the seen-set and the frontier of a deep specification must not exhaust the machine.
+var heapLimit = func() uint64 {
+	gb := 6
+	if n, err := strconv.Atoi(os.Getenv("VERIF_MEM_GB")); err == nil && n > 0 {
+		gb = n
+	}
+	return uint64(gb) << 30
+}()
+
+func heapOverLimit() bool {
+	var ms runtime.MemStats
+	runtime.ReadMemStats(&ms)
+	return ms.HeapAlloc > heapLimit
 }
 
 // devAll (VERIF_DEV_ALL=1) is a development aid: print violations and keep exploring (violating states are not expanded).
@@ -283,7 +300,8 @@ func Explore(s *Spec, kf *KnownFindings) (*RunStats, *Found) {
 					if i >= len(frontier) {
 						return
 					}
-					if !s.Deadline.IsZero() && time.Now().After(s.Deadline) {
+					if (!s.Deadline.IsZero() && time.Now().After(s.Deadline)) || (i%256 == 0 && heapOverLimit()) {
+						// the time budget or the memory budget ends the exploration (exhaustive:false); it never fails it
 						mu.Lock()
 						timedOut = true
 						mu.Unlock()
